@@ -98,6 +98,36 @@ EXEMPT_FUNCS = {
 }
 
 
+_ATOMIC_CACHE: dict = {}
+
+
+def _in_new_atomic_writer(e: Event, results, known) -> bool:
+    """the sink event happened in the frame of a function added after the
+    pinned tree (or of a private helper of its module) that implements the
+    atomic-replace idiom of C19 for one of its parameters"""
+    fn = e.func
+    if fn is None or fn.qualname in known:
+        return False
+    from .c19 import atomic_idiom
+    mod_fns = [q for q, r in results.items()
+               if r.func.module is fn.module and q not in known]
+    for q in mod_fns:
+        if q not in _ATOMIC_CACHE:
+            r = results[q]
+            ok = False
+            for p_ in r.func.params:
+                try:
+                    ok = ok or bool(atomic_idiom(r, p_)[0])
+                except Exception:
+                    pass
+            _ATOMIC_CACHE[q] = ok
+    if _ATOMIC_CACHE.get(fn.qualname):
+        return True
+    # a private helper (temp-file name, cleanup) of such a writer's module
+    return fn.name.startswith("_") and any(_ATOMIC_CACHE.get(q)
+                                           for q in mod_fns)
+
+
 def _mode_of(e: Event, pidx: int, midx: int) -> Optional[str]:
     m = arg_of(e, "mode", midx)
     if m is not None and m.op == "param" and e.func is not None:
@@ -525,6 +555,7 @@ def check(ctx):
     _CHK_MODEL[0] = _chk_outcomes(prog)
     _CHK_EXAMINED[0] = _find_chk_examined(prog)
     _EXPANDING.clear()
+    _ATOMIC_CACHE.clear()
     for q, res_ in results.items():
         f_ = res_.func
         if f_.cls is None and f_.params and any(
@@ -562,6 +593,16 @@ def check(ctx):
                     for r_ in results.values() for c in r_.of_kind("call")):
                 # a helper added later that the writers call: its sink is
                 # judged inside each caller, where it was looked through
+                continue
+            if _in_new_atomic_writer(e, results, KNOWN_FUNCTIONS):
+                # the atomic settings writer re-implemented / moved to another
+                # module and looked through: the same exemption as
+                # settings.write_atomic
+                ctx.ob("C17.1", e, True, f"sink {kind} exempt: inside "
+                       f"{e.func.qualname}, an atomic-replace writer like "
+                       f"settings.write_atomic (subject of C19)",
+                       key=f"C17.1:exempt:{e.func.qualname}:{kind}",
+                       nontrivial=False, path=fmt(p))
                 continue
             if q in EXEMPT_FUNCS:
                 ctx.ob("C17.1", e, True, f"sink {kind} exempt: "
